@@ -1,0 +1,57 @@
+//go:build verif
+
+package wallet
+
+import (
+	"github.com/btcsuite/btcd/btcutil"
+	"github.com/btcsuite/btcd/wire"
+	"github.com/btcsuite/btcwallet/chain"
+	"github.com/btcsuite/btcwallet/waddrmgr"
+	"github.com/btcsuite/btcwallet/wallet/txauthor"
+	"github.com/btcsuite/btcwallet/walletdb"
+	"github.com/btcsuite/btcwallet/wtxmgr"
+)
+
+// The functions in this file exist only in builds with the verif tag. They
+// let the verification harness drive wallet internals from threads it
+// schedules itself, without starting the wallet's own goroutines.
+
+// VerifSetChainClient attaches a chain backend without starting the
+// notification and rescan goroutines and marks the wallet as synced.
+func (w *Wallet) VerifSetChainClient(c chain.Interface) {
+	w.chainClientLock.Lock()
+	w.chainClient = c
+	w.chainClientLock.Unlock()
+	w.SetChainSynced(true)
+}
+
+// VerifTxToOutputs calls txToOutputs (the body of CreateSimpleTx) directly in
+// the calling goroutine instead of going through the txCreator goroutine.
+func (w *Wallet) VerifTxToOutputs(outputs []*wire.TxOut,
+	coinSelectKeyScope, changeKeyScope *waddrmgr.KeyScope, account uint32,
+	minconf int32, feeSatPerKb btcutil.Amount, strategy CoinSelectionStrategy,
+	dryRun bool, selectedUtxos []wire.OutPoint) (*txauthor.AuthoredTx, error) {
+
+	return w.txToOutputs(
+		outputs, coinSelectKeyScope, changeKeyScope, account, minconf,
+		feeSatPerKb, strategy, dryRun, selectedUtxos, nil,
+	)
+}
+
+// VerifAddRelevantTx records a relevant transaction the way the notification
+// loop does (addRelevantTx inside one database transaction).
+func (w *Wallet) VerifAddRelevantTx(rec *wtxmgr.TxRecord,
+	block *wtxmgr.BlockMeta) error {
+
+	return walletdb.Update(w.db, func(tx walletdb.ReadWriteTx) error {
+		return w.addRelevantTx(tx, rec, block)
+	})
+}
+
+// VerifConnectBlock marks a block as connected the way the notification loop
+// does (connectBlock inside one database transaction).
+func (w *Wallet) VerifConnectBlock(b wtxmgr.BlockMeta) error {
+	return walletdb.Update(w.db, func(tx walletdb.ReadWriteTx) error {
+		return w.connectBlock(tx, b)
+	})
+}
